@@ -139,10 +139,15 @@ func (m *LoadBalancedManager) RemoveConn(u Upstream) {
 	if !ok {
 		return
 	}
+	registered := len(lb.upstreams)
 	if lb.Remove(u) {
 		delete(m.localUpstreams, u.EndpointID())
 
 		m.metrics.RegisteredEndpoints.Dec()
+	}
+	if len(lb.upstreams) == registered {
+		// The upstream was already removed.
+		return
 	}
 
 	m.cluster.RemoveLocalEndpoint(u.EndpointID())
